@@ -79,7 +79,9 @@ def step (st : DState) (line : String) : DState × Option String :=
     -- the code writer gets the image, the EEPROM writer the same image with every byte xor 0x5a
     let bs := unhexNats img
     let es := bs.map fun b => Nat.xor b 0x5a
-    (st, some s!"{id} HEX2 {hexOfStr (Hex.fileText bs)} {hexOfStr (Hex.fileText es)}")
+    -- very large images: the EEPROM file is reported for every third length only (both sides of the protocol)
+    let e := if bs.length ≤ 70000 ∨ bs.length % 3 = 0 then hexOfStr (Hex.fileText es) else "-"
+    (st, some s!"{id} HEX2 {hexOfStr (Hex.fileText bs)} {e}")
   | [id, "F", main, dirs] =>
     let ds := if dirs == "-" then [] else (dirs.splitOn ",").map unhexStr
     (st, some s!"{id} {canonOut (buildFile st.fs (unhexStr main) ds)}")
